@@ -677,6 +677,9 @@ class CommProp(core.Prop):
             yield dict(desc, style=0)
 
     # -- runtime-only checks ------------------------------------------------------------------
+    def runtime_failures_of_replay(self):
+        return list(self.mem_failures)
+
     def extra_checks(self, tier, rng, report):
         seen = set()
         for what, desc in self.mem_failures:
